@@ -57,24 +57,27 @@ type kase struct {
 	Devs    []dev   `json:"deviations"`
 	Passes  int     `json:"passes"` // 2: the request is sent a second time with warm caches
 	Req     request `json:"request"`
+	// Prelude, when set, is sent (and observed) before Req in the same pristine world: a two-request sequence
+	Prelude *request `json:"prelude,omitempty"`
 }
 
 // result is what a worker observed for a case.
 type result struct {
-	Seq      int      `json:"seq"`
-	Fatal    string   `json:"fatal,omitempty"`
-	Status   [2]int   `json:"status"`
-	Reached  [2]bool  `json:"reached"`
-	Panic    string   `json:"panic,omitempty"`
-	Pass     int      `json:"pass"`
-	Site     string   `json:"site,omitempty"`
-	Frames   []string `json:"frames,omitempty"`
-	Shutdown bool     `json:"shutdown,omitempty"`
-	Exiting  bool     `json:"exiting,omitempty"`
-	Hung     bool     `json:"hung,omitempty"`
-	Repaired []string `json:"repaired,omitempty"`
-	Micros   int64    `json:"us"`
-	Note5xx  string   `json:"note_5xx,omitempty"` // start of the body of a 5xx answer that is not a recovered panic
+	Seq           int      `json:"seq"`
+	Fatal         string   `json:"fatal,omitempty"`
+	Status        [2]int   `json:"status"`
+	Reached       [2]bool  `json:"reached"`
+	Panic         string   `json:"panic,omitempty"`
+	Pass          int      `json:"pass"`
+	Site          string   `json:"site,omitempty"`
+	Frames        []string `json:"frames,omitempty"`
+	Shutdown      bool     `json:"shutdown,omitempty"`
+	Exiting       bool     `json:"exiting,omitempty"`
+	Hung          bool     `json:"hung,omitempty"`
+	Repaired      []string `json:"repaired,omitempty"`
+	Micros        int64    `json:"us"`
+	PreludeStatus int      `json:"prelude_status,omitempty"`
+	Note5xx       string   `json:"note_5xx,omitempty"` // start of the body of a 5xx answer that is not a recovered panic
 }
 
 var caseLimit = 600 * time.Second
@@ -189,6 +192,23 @@ func runCase(w *world, srv *server, k *kase) result {
 	passes := k.Passes
 	if passes < 1 || passes > 2 {
 		passes = 2
+	}
+
+	if k.Prelude != nil {
+		a := srv.roundTrip(k.Prelude.wire(), caseLimit)
+		res.PreludeStatus = a.Status
+
+		if a.Obs.Panic != "" {
+			res.Panic = a.Obs.Panic
+			res.Pass = 2
+			res.Site, res.Frames = panicSite(a.Obs.Stack)
+		}
+
+		if a.Err != "" && a.Status == 0 && (strings.Contains(a.Err, "timeout") || strings.Contains(a.Err, "deadline")) {
+			res.Hung = true
+
+			return res
+		}
 	}
 
 	for pass := 0; pass < passes; pass++ {
@@ -615,16 +635,18 @@ func lastLines(s string, n int) string {
 // ---- verdict ---------------------------------------------------------------------------
 
 type witness struct {
-	Route      string   `json:"route"`
-	Identity   string   `json:"identity"`
-	Loggers    string   `json:"loggers"`
-	Deviations []dev    `json:"deviations"`
-	Request    request  `json:"request"`
-	Shown      string   `json:"request_shown"`
-	Pass       string   `json:"pass,omitempty"`
-	Panic      string   `json:"panic"`
-	Site       string   `json:"site"`
-	Frames     []string `json:"frames,omitempty"`
+	Route        string   `json:"route"`
+	Identity     string   `json:"identity"`
+	Loggers      string   `json:"loggers"`
+	Deviations   []dev    `json:"deviations"`
+	Prelude      *request `json:"prelude,omitempty"`
+	PreludeShown string   `json:"prelude_shown,omitempty"`
+	Request      request  `json:"request"`
+	Shown        string   `json:"request_shown"`
+	Pass         string   `json:"pass,omitempty"`
+	Panic        string   `json:"panic"`
+	Site         string   `json:"site"`
+	Frames       []string `json:"frames,omitempty"`
 }
 
 type hit struct {
@@ -703,7 +725,7 @@ func main() {
 
 	r.Rule("for every route of the server's real route table: each well-formed request of the route (path variables naming existing objects, the payload the handler documents) and its deviations in at most " + strconv.Itoa(plan.maxDevs) +
 		" slot(s) of {method, each path variable, the whole path, each declared query parameter, the whole query, the headers Range/Accept/Accept-Language/Authorization/Content-Type/If-None-Match/Cookie and 8 more, the body as a whole, each node of a JSON body / field of a form} x identities {administrator, non-administrator with every other permission, plain user}; " + tierRule +
-		"; requests travel as HTTP/1.1 bytes over an in-memory connection into net/http; the world is restored after every case. evaluations = requests answered. distinct non-trivial = distinct (route, identity, loggers, set of deviations) whose request reached the router")
+		"; plus two-request sequences as administrator (a well-formed GET, then the request deviated in Range / If-None-Match / Accept-Encoding / Accept; on the asset routes every Range option on six fixtures, two of them cached in minified, shorter form); requests travel as HTTP/1.1 bytes over an in-memory connection into net/http; the world is restored after every case. evaluations = requests answered. distinct non-trivial = distinct (route, identity, loggers, set of deviations) whose request reached the router")
 	r.Assume(
 		"the last-resort recovery is switched off by ego.server.panic.recovery=false (checked before and after every case); a panic that reaches it is re-raised by reportRequestPanic and caught, with its stack, by the harness's wrapper around Router.ServeHTTP",
 		"a panic that a handler (or the Ego run time under it) recovers itself and answers with its own error response is not a firing of the last-resort recovery and is not flagged",
@@ -718,7 +740,7 @@ func main() {
 
 		must(report.LoadReplay(r.Replay, &wit), "replay file")
 
-		k := kase{Seq: 0, Route: wit.Route, Ident: wit.Identity, Loggers: wit.Loggers, Devs: wit.Deviations, Passes: 2, Req: wit.Request}
+		k := kase{Seq: 0, Route: wit.Route, Ident: wit.Identity, Loggers: wit.Loggers, Devs: wit.Deviations, Passes: 2, Req: wit.Request, Prelude: wit.Prelude}
 		v := newVerdict(r, plan)
 
 		runAll(scratch, 1, func(yield func(kase)) { yield(k) }, v.add)
@@ -827,6 +849,12 @@ func (v *verdict) add(o outcome) {
 	if res.Shutdown {
 		passes = 1
 		v.shutdowns[k.Route]++
+	}
+
+	if k.Prelude != nil {
+		v.r.Eval(1)
+		v.statuses[strconv.Itoa(res.PreludeStatus)]++
+		rs.Statuses[strconv.Itoa(res.PreludeStatus)]++
 	}
 
 	for p := 0; p < passes; p++ {
@@ -993,7 +1021,11 @@ func (v *verdict) finish() {
 		}
 
 		wit := witness{Route: h.k.Route, Identity: h.k.Ident, Loggers: h.k.Loggers, Deviations: h.k.Devs, Request: h.k.Req, Shown: h.k.Req.show(),
-			Pass: []string{"first request (cold caches)", "second, identical request (warm caches)"}[h.res.Pass], Panic: h.res.Panic, Site: h.res.Site, Frames: h.res.Frames}
+			Pass: []string{"first request (cold caches)", "second, identical request (warm caches)", "the preceding well-formed request"}[h.res.Pass], Panic: h.res.Panic, Site: h.res.Site, Frames: h.res.Frames}
+
+		if h.k.Prelude != nil {
+			wit.Prelude, wit.PreludeShown = h.k.Prelude, h.k.Prelude.show()
+		}
 
 		v.r.Violation(cell, size, wit, fmt.Sprintf("the handler of %s panicked (%s) in %s and the panic reached the router's last-resort recovery; request: %s, as %s", h.k.Route, h.res.Panic, h.res.Site, h.k.Req.show(), h.k.Ident))
 	}
